@@ -239,7 +239,10 @@ class _ShapeList(list):
                     line = crtf_strings['symbol'].format(
                         include, *coord, symbol=shape.meta['symbol'])
                 else:
-                    line = crtf_strings['point'].format(include, *coord)
+                    # CRTF has no "point" shape; a point is a symbol
+                    # annotation, "." being the CRTF point marker
+                    line = crtf_strings['symbol'].format(
+                        include, *coord, symbol='.')
 
             elif shape.region_type == 'ellipse':
                 coord[2:] = [x / 2 for x in coord[2:]]
